@@ -104,10 +104,30 @@ def eval_pred(e, env):
             return not v
         if isinstance(e.op, ast.USub):
             return -v
+    if isinstance(e, ast.Attribute):
+        key = ast.unparse(e)
+        if key in env:
+            return env[key]
+        raise Undecidable(f'free attribute {key}')
     if isinstance(e, ast.BoolOp):
+        # three-valued: a decidable dominating operand decides the whole expression
+        vals, undec = [], None
+        for v in e.values:
+            try:
+                vals.append(bool(eval_pred(v, env)))
+            except Undecidable as u:
+                undec = u
         if isinstance(e.op, ast.And):
-            return all(eval_pred(v, env) for v in e.values)
-        return any(eval_pred(v, env) for v in e.values)
+            if any(v is False for v in vals):
+                return False
+            if undec is not None:
+                raise undec
+            return True
+        if any(vals):
+            return True
+        if undec is not None:
+            raise undec
+        return False
     if isinstance(e, (ast.Tuple, ast.List, ast.Set)):
         return type({ast.Tuple: (), ast.List: [], ast.Set: set()}[type(e)])(eval_pred(x, env) for x in e.elts)
     if isinstance(e, ast.Subscript):
